@@ -123,7 +123,8 @@ PROPS = {
     },
     "C04": {
         "mc": L0_QUICK + L0_THOROUGH,
-        "drivers": [drv("history", "debug"), drv("history", "release", tiers=T)],
+        "drivers": [drv("history", "debug"), drv("history", "release", tiers=T),
+                    drv("arb", "debug", features=["std", "rand", "serde", "quickcheck", "arbitrary"], shards={"quick": 4, "thorough": 8})],
         "owns_reasons": ("noncanon",),
     },
     "C20": {
@@ -190,7 +191,7 @@ own("C17", "serialize deserialize serde_roundtrip")
 own("C18", "gen_biguint gen_bigint gen_biguint_below gen_range")
 own("C20", "cost_table")
 own("C19", "from_biguint clone neg abs signum is_positive is_negative sign magnitude into_parts abs_sub is_zero is_one set_zero set_one const sign_neg sign_mul to_biguint to_bigint")
-own("C04", "clone obs")
+own("C04", "clone obs arbitrary")
 
 # properties whose statement itself names a must-panic case (others leave missing panics to C14)
 FAILURE_STATED = {"C01", "C03", "C05", "C07", "C11", "C14", "C18"}
